@@ -15,6 +15,7 @@
  *   msend s<i> <asdu-hex>   master application: isChannelReady (unbalanced) then sendASDU
  *   poll s<i>               CS101_Master_pollSingleSlave
  *   mtest s<i>              CS101_Master_sendLinkLayerTestFunction (towards slave i)
+ *   flush s<i>              CS101_Slave_flushQueues
  *   inject m|s<i> <hex>     raw octets appear on that station's receive line
  * trace:
  *   tx m|s<i> <n> <hex> [lost|dup]     frame number n written by that station
@@ -173,6 +174,7 @@ int main(void)
             printf("msend s%d ok=%d\n", st + 1, ok);
         }
         else if (!strcmp(cmd, "poll") && st >= 0) CS101_Master_pollSingleSlave(master, slaveAddr(st));
+        else if (!strcmp(cmd, "flush") && st >= 0) CS101_Slave_flushQueues(slaves[st]);
         else if (!strcmp(cmd, "mtest") && st >= 0) { CS101_Master_useSlaveAddress(master, slaveAddr(st)); CS101_Master_sendLinkLayerTestFunction(master); }
         else if (!strcmp(cmd, "inject")) { int n = unhex(a2, b); Sim_serialFeed(st < 0 ? mport : sport[st], b, n); }
         else printf("? %s", line);
